@@ -17,7 +17,7 @@ CHECKS = {
     "C07": ("exploration", "Bounded only: unparse/parse fix-point, equality and equal verdicts over a generated constraint family.", NOTE_BND, BND, "6/C07"),
     "C08": ("other", "Bounded: sugared constraints vs an independently written desugaring, on enumerated trees. Proved (supporting): list_set, nth_occ, is_prefix used by XPath elimination.", NOTE_MIX, MIX, "6/C08"),
     "C09": ("other", "Proved for all formulas and all assignments, over an abstract semantics of formula ASTs: Formula.__and__/__or__/__neg__ mean conjunction/disjunction/negation (n-ary, by fold invariants); six of the seven case functions of convert_to_nnf answer exactly for their formula classes and their answer means the formula (negated iff `negate`), with the dispatch chain as assumed induction hypothesis and a lemma that some case always answers. Bounded: negation, NNF, DNF, renaming, and/or on generated n-ary ASTs keep/invert the verdict and never raise (incl. the SMT-level case and DNF, which are not proved).", NOTE_MIX, MIX, "6/C09"),
-    "C10": ("other", "Proved for every grammar and input (soundness half): every state that EarleyParser's scan / predict / complete / fill_chart put into a chart column is justified by a derivation (loop invariants over the real code, heap-aware, Column.add with frame conditions), hence a finished start-symbol state spanning the input implies that the start symbol derives it -- over the definition of derivation as axioms, an abstract-data-type view of rule tuples, and the ASSUMED soundness of parser.nullable(). Completeness (members are accepted), tree extraction/pruning and ISLaSolver.parse: bounded, exhaustive per bound, against an independent recogniser on fixed and random grammars.", NOTE_MIX, MIX, "6/C10"),
+    "C10": ("other", "Proved for every grammar and input (soundness half): every state that EarleyParser's scan / predict / complete / fill_chart put into a chart column is justified by a derivation (loop invariants over the real code, heap-aware, Column.add with frame conditions), hence a finished start-symbol state spanning the input implies that the start symbol derives it -- over the definition of derivation as axioms, an abstract-data-type view of rule tuples, and parser.nullable's fix point (proved: its result is sound and closed under the rules, i.e. exactly the nullable symbols; the wiring self.epsilon = nullable(cgrammar) is assumed). Completeness of the chart (members are accepted), tree extraction/pruning and ISLaSolver.parse: bounded, exhaustive per bound, against an independent recogniser on fixed and random grammars.", NOTE_MIX, MIX, "6/C10"),
     "C11": ("exploration", "Bounded: per-character escape table exhaustive on 0..0x24F, string and grammar round trips on critical alphabets.", NOTE_BND, BND, "6/C11"),
     "C12": ("other", "Bounded: post-conditions of expand_tree / mutate over seeds and a choice oracle. Proved (supporting): parent_or_child.", NOTE_MIX, MIX, "6/C12"),
     "C13": ("other", "Bounded: post-condition of insert_tree for all method subsets. Proved (supporting): is_prefix.", NOTE_MIX, MIX, "6/C13"),
